@@ -102,3 +102,21 @@ Fixpoint cum_consistent (t : qt) : bool :=
 (* the two versions of the code side by side, for the regression witness *)
 Definition build_order (fx : bool) (fuel : nat) (data : list pt) (order : list nat) (root : cell) : res :=
   fill_order fx fuel data order (init root).
+
+(* ---------- tsne.hpp, computeGradient / evaluateError: one tree, one shared sum_Q ----------
+   for (n = 0; n < N; n++) tree->computeNonEdgeForces(n, theta, neg_f + n*D, &sum_Q);
+   neg_f was calloc'ed: every row starts from (0, 0); sum_Q runs through all rows. *)
+Fixpoint nonedge_loop (data : list pt) (theta : Q) (t : qt) (ns : list nat) (sq : Q)
+  : option (list (Q * Q) * Q) :=
+  match ns with
+  | [] => Some ([], sq)
+  | n :: r =>
+    match forces data n theta t (0, 0, sq) with
+    | FOOB _ => None
+    | FDone (f0, f1, sq') =>
+      match nonedge_loop data theta t r sq' with
+      | None => None
+      | Some (l, s) => Some ((f0, f1) :: l, s)
+      end
+    end
+  end.
